@@ -2788,7 +2788,7 @@ class VM:
 
         def search(*args):
             pattern = args[0] if args else None
-            if pattern is None:
+            if pattern is None or pattern is UNDEFINED:
                 return 0  # Match empty string at start
 
             from .regex import RegExp as InternalRegExp
